@@ -131,6 +131,9 @@ var solvers = []solverSpec{
 // NoSlicing disables the cone-of-influence pruning of queries.
 var NoSlicing = false
 
+// ExtraSeeds adds z3 runs under other random seeds to the race (used for retries).
+var ExtraSeeds = false
+
 // KeepQueries keeps discharged query files too.
 var KeepQueries = false
 
@@ -224,7 +227,19 @@ func Discharge(o *Obligation, timeoutMs int, all bool) *Result {
 	}
 	ch := make(chan r, len(solvers))
 	var wg sync.WaitGroup
-	for _, sp := range solvers {
+	race := solvers
+	if ExtraSeeds {
+		// second chance: the same query under other random seeds (instantiation order matters
+		// for quantified goals; a proof found under any seed is a proof)
+		for _, seed := range []int{7, 23, 101} {
+			seed := seed
+			race = append(race, solverSpec{fmt.Sprintf("z3-new/seed%d", seed), func(f string, t int) []string {
+				return []string{"z3-new", fmt.Sprintf("-t:%d", t), fmt.Sprintf("smt.random_seed=%d", seed), fmt.Sprintf("sat.random_seed=%d", seed), f}
+			}})
+		}
+	}
+	ch = make(chan r, len(race))
+	for _, sp := range race {
 		if all && sp.Name == solvers[0].Name && (st == "unsat" || st == "sat") {
 			continue
 		}
